@@ -64,7 +64,12 @@ def handle (j : Json) : Except String Json := do
     return Json.mkObj [("ok", true), ("told", Json.arr (objs.map (fun o => ofTell (cboTellY ignore o))).toArray)]
   | "case" =>
     let single ← jBool (← field j "single")
-    let told ← jList (jList jRat) (← field j "told")
+    let toldOpt ← jList (fun r => match r with
+      | Json.null => pure (none : Option Vec)
+      | r => do return some (← jList jRat r)) (← field j "told")
+    let told := toldOpt.filterMap id
+    let ff := match (fieldD j "ff" (Json.str "min")).getStr? with | .ok s => s | .error _ => "min"
+    let maxf := match (fieldD j "maxf" (Json.num 100)).getNat? with | .ok n => n | .error _ => 100
     let scalerName ← (← field j "scaler").getStr?
     let scaledIn ← jList (jList jRat) (fieldD j "scaled" (Json.arr #[]))
     let sc : Scaler ← match scalerName with
@@ -80,17 +85,20 @@ def handle (j : Json) : Except String Json := do
     let kappa ← jRat (← field j "kappa")
     let scaled := applyScaler sc told
     let utopia := scaled.bind colMin
-    let targets : Option Vec :=
-      if single then singleTargets sc (told.map (fun r => sumL r)) else mooTargets sc strat w told
+    let fitted := fitTargets single sc strat w ff maxf toldOpt
+    let targets : Option Vec := match fitted with | .ok v => some v | .error _ => none
+    let targetsErr : String := match fitted with | .ok _ => "" | .error e => e
     let pre : Option Vec :=
-      if single then targets else mooTargetsPre sc strat w told
+      if told.length != toldOpt.length then none
+      else if single then targets else mooTargetsPre sc strat w told
     let acq := acqLCB kappa mu sd
     let contract : Bool := match sc with
       | .given s => orderPreservingB told s
       | _ => true
     return Json.mkObj [("ok", true),
       ("scaled", optJ ofRows scaled), ("utopia", optJ ofRats utopia),
-      ("targets", optJ ofRats targets), ("pre_targets", optJ ofRats pre),
+      ("targets", optJ ofRats targets), ("targets_err", targetsErr), ("pre_targets", optJ ofRats pre),
+      ("ff_internal", mapFilterFailures ff),
       ("contract", contract),
       ("acq", ofRats acq),
       ("choice", optJ (fun (n : Nat) => Json.num (JsonNumber.fromNat n)) (chooseNext acq)),
